@@ -8,7 +8,7 @@ from ..runner import Outcome
 LEVEL = "proof"
 ASSUMPTIONS = ["edits are the mapping operations set / add / delete (all addressing forms); mutating a stored column object's fields behind the record's back is outside the property"]
 NAMES = ["a", "b", "c"]
-IMPL_ONLY = ("restore", "copy", "popitem", "clear", "huge", "warnings-as-errors")     # operations the model has no counterpart of (object identity, resource limits)
+IMPL_ONLY = ("restore", "copy", "popitem", "clear", "huge", "warnings-as-errors", "foreign")     # operations the model has no counterpart of (object identity, resource limits)
 
 
 def gen_op(rng, names=NAMES, idxs=(0, 1, 2, 3, 5, -1, None, None, None)):
@@ -257,6 +257,7 @@ def run_history(ops, start=None):
     problems = [(-1, b) for b in coherence(rec)]
     initial = observe(rec, oids)
     strict_warnings = False
+    foreign = [None]
     recs = [rec]          # the record and the shallow copies made of it so far (copy.copy shares what the class shares)
     for n, o in enumerate(ops):
         if problems:
@@ -271,6 +272,30 @@ def run_history(ops, start=None):
                   warnings.simplefilter("error")      # the application runs with -W error: a warning is an exception like any other
               if o["k"] == "warnings-as-errors":
                   strict_warnings = True
+              elif o["k"] == "foreign":
+                  # a column OBJECT that lives in another, separately built record (a, b, c at 0, 1, 2) is stored into this
+                  # one: whatever happens, both records stay coherent, and a refusal changes neither
+                  if foreign[0] is None:
+                      from maflib.column import MafColumnRecord
+                      from maflib.record import MafRecord
+                      other = MafRecord()
+                      for j, nm in enumerate(NAMES):
+                          c0 = MafColumnRecord(nm, "o%d" % j, j)
+                          oids[id(c0)] = 9000 + j
+                          other[nm] = c0
+                      foreign[0] = other
+                      recs.append(other)
+                      before.append(observe(other, oids))
+                  c = foreign[0][o["slot"] % len(NAMES)]
+                  if c is not None:
+                      if o["via"] == "add":
+                          rec.add(c)
+                      elif o["via"] == "name":
+                          rec[c.key] = c
+                      elif o["via"] == "int":
+                          rec[o["slot"] % len(NAMES)] = c
+                      else:
+                          rec[c] = c
               elif o["k"] == "copy":
                   import copy
                   recs.append(copy.copy(rec))
@@ -412,7 +437,7 @@ def run(ctx):
     rng_r = ctx.rng("hist", "restore")
     for _ in range(ctx.scale(400, 5000)):
         h = []
-        flavour = rng_r.choice(["restore", "restore", "mapping", "copy", "huge", "warnings"])
+        flavour = rng_r.choice(["restore", "restore", "mapping", "copy", "huge", "warnings", "foreign"])
         if flavour == "warnings":
             h.append({"k": "warnings-as-errors"})
         for _k in range(rng_r.randrange(2, 9)):
@@ -422,6 +447,8 @@ def run(ctx):
             elif flavour == "mapping" and x < 0.3:
                 # the deletions the mapping interface adds on top of `del`: popitem() and clear()
                 h.append({"k": rng_r.choice(["popitem", "popitem", "clear"])})
+            elif flavour == "foreign" and x < 0.35:
+                h.append({"k": "foreign", "slot": rng_r.randrange(3), "via": rng_r.choice(["name", "name", "col", "add", "int"])})
             elif flavour == "copy" and x < 0.2:
                 h.append({"k": "copy", "on": rng_r.randrange(3)})
             elif flavour == "huge" and x < 0.25:
@@ -491,6 +518,8 @@ def show_op(o):
     on = " (on shallow copy %d)" % o["on"] if o.get("on") else ""
     if o["k"] == "del":
         return "del rec[%s]%s" % (key(o["key"]), on)
+    if o["k"] == "foreign":
+        return "c = the column object at index %d of ANOTHER record (a, b, c at 0, 1, 2); store it here via %s" % (o["slot"] % 3, o["via"])
     if o["k"] == "warnings-as-errors":
         return "warnings.simplefilter('error')   -> from here on a warning is an exception"
     if o["k"] == "copy":
